@@ -493,6 +493,11 @@ func (fv *FuncVer) recordEventT(st *State, name string, args, res []*Term, ins s
 		p := fv.eng.fset.Position(ins.Pos())
 		site = fmt.Sprintf("%s:%d", relPath(p.Filename), p.Line)
 	}
+	// an instantiated generic function is named like its origin (slices.Compact[[]uint64,uint64]
+	// is "slices.Compact" to every contract that speaks about calls)
+	if i := strings.Index(name, "["); i > 0 && strings.HasSuffix(name, "]") {
+		name = name[:i]
+	}
 	st.events = append(st.events, Event{Name: name, Args: args, Results: res, Site: site})
 }
 
